@@ -121,11 +121,19 @@ def _prove1(pc, side, goal, quick=False):
                 try:
                     g1, subs = implied_equalities(pc, goal)
                     g2 = elim_ite(pc, side, g1)
+                    # the defining equations of quotient / sqrt symbols are normalised the same way, so that equal
+                    # ratios written differently get the same polynomial normal form
+                    side_n = []
+                    for sc in side:
+                        t = sc
+                        for v_, t_ in subs:
+                            t = z3.substitute(t, (v_, t_))
+                        side_n.append(elim_ite(pc, [], t))
                     if z3.is_true(g2):
                         ok = True
-                    elif not z3.eq(g2, goal):
+                    elif not z3.eq(g2, goal) or side_n:
                         try:
-                            ok = poly_identity(pc, side, g2)
+                            ok = poly_identity(pc, side_n, g2)
                         except Exception:
                             ok = False
                         if not ok:
